@@ -388,6 +388,21 @@ pub fn run(args: &Args) -> i32 {
             let (res, rep, items) = run_entry("read", text, l);
             w.put(&Rec { id: format!("{id}-read-{li}"), entry: "read", yaml: text, raw: &raw, lim: *l, res, rep, items });
         }
+        // the same document three times in one stream, under per-document limits equal to ITS OWN usage: every copy must be
+        // accepted (a counter that is not reset between documents rejects the second one)
+        if ndocs == 1 && !text.trim_start().starts_with('%') {
+            let body = text.strip_prefix("---\n").or_else(|| text.strip_prefix("--- ")).unwrap_or(text);
+            let sep = if text.starts_with("--- ") { "--- " } else { "---\n" };
+            let text3 = format!("{sep}{body}{sep}{body}{sep}{body}");
+            if let Some(raw3) = full_raw(&text3) {
+                if raw3.iter().filter(|e| e.k == "DS").count() == 3 {
+                    let own = Lim { events: -1, documents: -1, rmin: -1, rmult: 0, nodes: usage.nodes as i64, depth: usage.depth as i64, aliases: usage.aliases as i64, anchors: usage.anchors as i64,
+                                    bytes: usage.bytes as i64, merge_keys: usage.merge_keys as i64 };
+                    let (res, rep, items) = run_entry("read", &text3, &own);
+                    w.put(&Rec { id: format!("{id}-x3"), entry: "read", yaml: &text3, raw: &raw3, lim: own, res, rep, items });
+                }
+            }
+        }
         if stats.samples.len() < 4 && ndocs > 1 {
             stats.samples.push(serde_json::json!({"id": id, "yaml": text, "usage": usage}));
         }
